@@ -6,7 +6,13 @@ package pypi
 // variables when the literal is a release version; everything else is a Python
 // string comparison.
 
-import "deps.dev/util/resolve/pypi/internal"
+import (
+	"context"
+
+	"deps.dev/util/resolve"
+	"deps.dev/util/resolve/dep"
+	"deps.dev/util/resolve/pypi/internal"
+)
 
 var c16Vars = []string{"python_version", "python_full_version", "implementation_version", "os_name", "sys_platform",
 	"platform_machine", "platform_system", "implementation_name", "platform_python_implementation"}
@@ -57,6 +63,9 @@ func c16CmpRelease(a, b [3]int) int {
 	}
 	return c
 }
+
+// c16ExtraX: whether the extra x is requested in the evaluation the reference describes.
+var c16ExtraX = true
 
 // c16TextOnly: set by the C04 totality harness, which uses the marker texts without the reference.
 var c16TextOnly bool
@@ -140,11 +149,11 @@ func c16Atom(k int) (text string, ref bool, ok bool) {
 	tag := c16D[k]
 	if vParam("x"+tag) == 1 { // extra == 'l'
 		name := c16Lit("l", "e"+tag)
-		return "extra" + c16Wsp("w") + "==" + c16Wsp("w") + "'" + name + "'", name == "x", true
+		return "extra" + c16Wsp("w") + "==" + c16Wsp("w") + "'" + name + "'", vAnd(name == "x", c16ExtraX), true
 	}
 	if vParam("x"+tag) == 2 { // 'l' == extra: the variable on the right
 		name := c16Lit("l", "e"+tag)
-		return "'" + name + "'" + c16Wsp("w") + "==" + c16Wsp("w") + "extra", name == "x", true
+		return "'" + name + "'" + c16Wsp("w") + "==" + c16Wsp("w") + "extra", vAnd(name == "x", c16ExtraX), true
 	}
 	vi, oi, li := vParam("v"+tag), vParam("o"+tag), vParam("l"+tag)
 	lit := c16Lit(c16Lits[li], "lit"+tag)
@@ -200,7 +209,8 @@ func c16Atom(k int) (text string, ref bool, ok bool) {
 	return c16Vars[vi] + sp + c16Ops[oi] + sp + q + lit + q, ref, ok
 }
 
-func VerifC16Marker() {
+// c16Expr builds the marker expression of the job's shape with its reference value.
+func c16Expr() (string, bool, bool) {
 	shape := vParam("shape")
 	a, ra, oka := c16Atom(0)
 	text, ref, ok := a, ra, oka
@@ -222,6 +232,11 @@ func VerifC16Marker() {
 	case 5: // ( A )
 		text = "(" + c16Wsp("w") + a + c16Wsp("w") + ")"
 	}
+	return text, ref, ok
+}
+
+func VerifC16Marker() {
+	text, ref, ok := c16Expr()
 	vObserveStr("marker", text)
 	m, err := parseMarker(text)
 	if !ok {
@@ -239,4 +254,44 @@ func VerifC16Marker() {
 	vCover(got, "marker true")
 	vCover(!got, "marker false")
 	vAssert(got == ref, "the marker evaluates as packaging does in the fixed environment")
+}
+
+// VerifC16Followed: the resolution-level clause. A dependency guarded by the marker is in the resolved graph
+// exactly when the marker is true for the fixed environment and the extras requested of its dependent:
+// r requires app (with the extra x, or with none); app requires dep under the marker.
+func VerifC16Followed() {
+	c16ExtraX = vParam("withextra") == 1
+	text, ref, ok := c16Expr()
+	c16ExtraX = true
+	if !ok {
+		return
+	}
+	vObserveStr("marker", text)
+	var rt, dt dep.Type
+	if vParam("withextra") == 1 {
+		rt.AddAttr(dep.EnabledDependencies, "x")
+	}
+	dt.AddAttr(dep.Environment, text)
+	req := func(name string, t dep.Type) resolve.RequirementVersion {
+		return resolve.RequirementVersion{VersionKey: resolve.VersionKey{PackageKey: c05PK(name), VersionType: resolve.Requirement, Version: ""}, Type: t}
+	}
+	lc := resolve.NewLocalClient()
+	lc.AddVersion(resolve.Version{VersionKey: c05VK("r", "1.0")}, []resolve.RequirementVersion{req("app", rt)})
+	lc.AddVersion(resolve.Version{VersionKey: c05VK("app", "1.0")}, []resolve.RequirementVersion{req("dep", dt)})
+	lc.AddVersion(resolve.Version{VersionKey: c05VK("dep", "1.0")}, nil)
+	g, err := NewResolver(lc).Resolve(context.Background(), c05VK("r", "1.0"))
+	vAssert(err == nil && g.Error == "", "a universe with a valid marker resolves")
+	if err != nil || g.Error != "" {
+		return
+	}
+	followed := false
+	for _, n := range g.Nodes {
+		if n.Version.Name == "dep" {
+			followed = true
+		}
+	}
+	vObserveBool("followed", followed)
+	vCover(followed, "guarded dependency followed")
+	vCover(!followed, "guarded dependency not followed")
+	vAssert(followed == ref, "a guarded dependency is followed exactly when the marker is true for the requested extras")
 }
